@@ -267,6 +267,13 @@ def doc_features(v, feats):
         feats.add("float")
 
 
+def collect_containers(v, acc):
+    if isinstance(v, (dict, list)):
+        acc.append(v)
+        for x in (v.values() if isinstance(v, dict) else v):
+            collect_containers(x, acc)
+
+
 def wl_docs(ctx, rng, i):
     for j in range(20):
         if j == 0 and i % 50 == 0:
@@ -280,6 +287,26 @@ def wl_docs(ctx, rng, i):
                 ["", "￿", "\U00010000", "\U0010ffff", "퟿", "a", "€", "a", "\U00010000a", ""], 6))}
         else:
             v = gen_doc(rng, rng.choice([2, 3, 4, 6]))
+        if j % 3 == 2 and isinstance(v, (dict, list)):
+            # history: the same containers were first refused (a NaN / Infinity / out-of-range integer somewhere inside), then
+            # repaired in place; a refusal must leave nothing behind that a later call can trip over
+            spots = []
+            collect_containers(v, spots)
+            host = rng.choice(spots)
+            bad = rng.choice([float("nan"), float("inf"), -float("inf"), 10 ** 400])
+            if isinstance(host, list):
+                host.append(bad)
+            else:
+                host["poison"] = bad
+            try:
+                canonicalize(v, utf8=False)
+                ctx.violation("non-finite-accepted", "canonicalize accepted a document containing %r" % (bad,), {"input": repr(v)[:1500]})
+            except Exception:
+                ctx.count("refused_then_repaired")
+            if isinstance(host, list):
+                host.pop()
+            else:
+                del host["poison"]
         got = check_value(ctx, v, "doc")
         if got is None:
             continue
